@@ -29,6 +29,9 @@ def run(tier, seed):
     sc1.append(hc.scen("time", ms[1], T=2, ck=2, tt=3, p=1, j=4, deadline=dl))
     sc2.append(hc.scen("r2_m0", ms[0], T=1, ck=2, p=1, d=(1 if tier != "quick" else 0), j=4, deadline=dl))
     sc2.append(hc.scen("r2_m1", ms[1], T=1, ck=1, p=(1 if tier != "quick" else 0), d=1, j=4, deadline=dl))
+    # 2 ranks ended by time / by RootsimStop: remote events and anti-messages of different sizes still in MPI flight are drained at shutdown
+    sc2.append(hc.scen("r2_time", ms[2], T=1, ck=2, tt=3, p=1, d=1, j=4, deadline=dl))
+    sc2.append(hc.scen("r2_stop", T(3, [7, 0, 1], [7, 2, 1], P=4, K=0, M=1, H=8, S=5), T=1, ck=1, p=1, d=1, j=4, deadline=dl))
     if tier != "quick":
         sc1 += [hc.scen(f"m{i}_p2", m, T=2, ck=2, p=2, j=8, deadline=dl) for i, m in enumerate(ms[:3])]
         sc2.append(hc.scen("r2x2", T(4, [4, 2, 1, 2], [4, 2, 1], P=5, K=4, M=2, H=5), T=2, ck=2, p=1, d=0, j=8, deadline=dl))
